@@ -406,6 +406,7 @@ class ISD(model.Document):
 
   _ORDERED_STYLE_PROPS = (
     styles.StyleProperties.FontSize,
+    styles.StyleProperties.Disparity,
     styles.StyleProperties.Extent,
     styles.StyleProperties.Origin,
     styles.StyleProperties.Position,
@@ -911,6 +912,20 @@ class StyleProcessors:
 
   class Disparity(StyleProcessor):
     style_prop = styles.StyleProperties.Disparity
+
+    @classmethod
+    def compute(cls, parent: model.ContentElement, element: model.ContentElement):
+      # horizontal offset: percentages, cells and pixels are relative to the width of the root container
+      element.set_style(
+        cls.style_prop,
+        _compute_length(
+          element.get_style(cls.style_prop),
+          _make_rw_length(100),
+          element.get_style(styles.StyleProperties.FontSize),
+          _make_rw_length(100 / element.get_doc().get_cell_resolution().columns),
+          _make_rw_length(100 / element.get_doc().get_px_resolution().width)
+        )
+      )
 
   class Display(StyleProcessor):
     style_prop = styles.StyleProperties.Display
